@@ -12,10 +12,28 @@ and its subclasses, obtained both from OverhangResolver.add_overhang_premise and
 in every state a premise for the first / last row must report bait overlap, what-if overhang, error delta
 and improves / makes_worse that equal the same interval arithmetic, and applying it must remove exactly that
 terminal row (with the gaps next to it) and leave the overhang its what-if value announced.
+
+The bait of all interval arithmetic is the bait that was looked up (the Fragment handed to find_overlaps), not whatever
+the result carries in .bait.
+
+Readings and edits on the SAME object.  What a result reports must be a function of its current rows, span and bait, not
+of what was asked of the object earlier.  So the exploration does not start every step from a pristine object: a child
+state is made from a copy of its parent that keeps all instance attributes (whatever the object remembers from having had
+every figure read in check_state), the operation is applied to it, and on EVERY edge of the exploration - also the ones
+leading to a state already seen - every figure (length, length_error, both overhangs, both bait overlaps, both what-if
+overhangs) is read from the edited object, in an order that changes from edge to edge, and compared with plain interval
+arithmetic on its current rows (quick tier: of the edges that change neither rows nor span only every 6th).  In addition
+whole paths are walked on ONE object from a fresh lookup (for every 4th state reached in the thorough tier, every 25th in
+the quick tier): before and after every operation all figures and str() are read in
+changing orders, some twice; every reading must equal the arithmetic, and the state reached must be the one the
+exploration reached without those readings (readings influence neither later readings nor operations).  The numbers that
+str() prints under the labels length / diff / overhang must be those figures too.
 """
 
+import copy
 import itertools
 import random
+import re
 
 from tola.assembly import build_utils
 from tola.assembly.fragment import Fragment
@@ -101,9 +119,8 @@ def apply_op(res, op):
     return True
 
 
-def check_state(res, src):
-    """message of the first violated clause, or None"""
-    bait = res.bait
+def check_state(res, src, bait):
+    """message of the first violated clause, or None.  bait: the Fragment that was looked up"""
     rows = res.rows
     got_bases = expand(rows)
     n = len(got_bases)
@@ -340,14 +357,180 @@ def check_premises(res, src, want):
     return None
 
 
-def safe_check(res, src):
+def safe_check(res, src, bait):
     try:
-        return check_state(res, src)
+        return check_state(res, src, bait)
     except Exception as e:
         return f"reading the result raised {type(e).__name__}: {e}"
 
 
-def explore(src, a, b, depth, col, counters):
+# ------------------------------------------------------------------ readings on an object with a history
+
+FIGURES = (
+    ("length", lambda r: r.length),
+    ("start_overhang", lambda r: r.start_overhang),
+    ("end_overhang", lambda r: r.end_overhang),
+    ("length_error", lambda r: r.length_error),
+    ("start_row_bait_overlap", lambda r: r.start_row_bait_overlap),
+    ("end_row_bait_overlap", lambda r: r.end_row_bait_overlap),
+    ("overhang_if_start_removed()", lambda r: r.overhang_if_start_removed()),
+    ("overhang_if_end_removed()", lambda r: r.overhang_if_end_removed()),
+)
+N_ALWAYS = 4  # figures that exist for a result without rows too
+
+
+def reading_orders():
+    rng = random.Random(18)
+    base = list(range(len(FIGURES)))
+    orders = [tuple(base), tuple(reversed(base)), (6, 7, 4, 5, 0, 1, 2, 3), (7, 5, 2, 6, 4, 1, 3, 0)]
+    for _ in range(7):
+        o = base[:]
+        rng.shuffle(o)
+        orders.append(tuple(o))
+    return orders
+
+
+ORDERS = reading_orders()
+
+
+def want_figures(res, bait):
+    """the figures of FIGURES by plain interval arithmetic on the current rows, the span and the looked-up bait"""
+    rows = res.rows
+    lens = [r.length if isinstance(r, Gap) else r.end - r.start + 1 for r in rows]
+    n = sum(lens)
+    start, end = res.start, res.end
+    out = [n, bait.start - start, end - bait.end, n - (bait.end - bait.start + 1)]
+    if rows:
+        first_end = start + lens[0] - 1
+        last_start = end - lens[-1] + 1
+        out.append(max(0, min(first_end, bait.end) - max(start, bait.start) + 1))
+        out.append(max(0, min(end, bait.end) - max(last_start, bait.start) + 1))
+        k, p = 1, first_end
+        while k < len(rows) and isinstance(rows[k], Gap):
+            p += lens[k]
+            k += 1
+        out.append(bait.start - (p + 1))
+        k, q = len(rows) - 2, last_start - 1
+        while k >= 0 and isinstance(rows[k], Gap):
+            q -= lens[k]
+            k -= 1
+        out.append(q - bait.end)
+    return tuple(out)
+
+
+def make_reader(order, n):
+    """a function reading the first n figures of FIGURES from r in the given order (plain code: this runs on every edge)"""
+    exprs = ["r.length", "r.start_overhang", "r.end_overhang", "r.length_error", "r.start_row_bait_overlap", "r.end_row_bait_overlap",
+             "r.overhang_if_start_removed()", "r.overhang_if_end_removed()"]  # fmt: skip
+    assert [e.split(".")[1] for e in exprs] == [name for name, _ in FIGURES]
+    body = "".join(f"    v{i} = {exprs[i]}\n" for i in order if i < n)
+    ns = {}
+    exec(f"def reader(r):\n{body}    return ({', '.join(f'v{i}' for i in range(n))},)\n", ns)  # noqa: S102
+    return ns["reader"]
+
+
+READERS = [(make_reader(o, len(FIGURES)), make_reader(o, N_ALWAYS)) for o in ORDERS]
+
+
+def read_figures(res, order):
+    """every figure read from the object, in the order ORDERS[order]; returned in the order of FIGURES"""
+    full, short = READERS[order % len(READERS)]
+    return full(res) if res.rows else short(res)
+
+
+def figures_message(res, bait, got, want, order):
+    bad = [f"{FIGURES[i][0]} reads {g}, expected {w}" for i, (g, w) in enumerate(zip(got, want)) if g != w]
+    return (
+        f"{'; '.join(bad)} by plain interval arithmetic on the current rows {row_keys(res.rows)}, span {res.start}..{res.end} and bait "
+        f"{bait.start}-{bait.end} (figures read in the order {[FIGURES[i][0] for i in ORDERS[order % len(ORDERS)] if i < len(got)]} from the "
+        "object that has been through the earlier readings and operations: what it reports depends on its history, not only on its rows)"
+    )
+
+
+def check_figures(res, bait, order, want=None):
+    """message if a figure read from this very object differs from the arithmetic, else None"""
+    try:
+        got = read_figures(res, order)
+    except Exception as e:
+        return f"reading the figures of the edited object raised {type(e).__name__}: {e}"
+    want = want or want_figures(res, bait)
+    if got != want:
+        return figures_message(res, bait, got, want, order)
+    return None
+
+
+STR_LABEL = re.compile(r"^\s*(length|diff|overhang):\s*(-?[\d_]+)\s*$", re.M)
+
+
+def check_str(res, bait, want=None):
+    """the numbers str() prints under the labels length / diff / overhang (first = start, last = end) are the figures"""
+    try:
+        text = str(res)
+    except Exception as e:
+        return f"str() of the edited object raised {type(e).__name__}: {e}"
+    want = want or want_figures(res, bait)
+    found = [(m.group(1), int(m.group(2).replace("_", ""))) for m in STR_LABEL.finditer(text)]
+    over = [v for k, v in found if k == "overhang"]
+    checks = [(v, want[0], "length") for k, v in found if k == "length"] + [(v, want[3], "diff") for k, v in found if k == "diff"]
+    if len(over) == 2:
+        checks += [(over[0], want[1], "first overhang"), (over[1], want[2], "last overhang")]
+    for got, w, label in checks:
+        if got != w:
+            return f"str() prints {label} {got}, plain interval arithmetic on the current rows {row_keys(res.rows)}, span {res.start}..{res.end} and bait {bait.start}-{bait.end} gives {w}"
+    return None
+
+
+def carry(res):
+    """a copy that keeps every instance attribute of res (all that the object remembers), with a row list of its own"""
+    try:
+        c = object.__new__(type(res))
+        c.__dict__.update(res.__dict__)
+    except Exception:
+        try:
+            c = copy.copy(res)
+        except Exception:
+            return clone(res)
+    c.rows = list(res.rows)
+    return c
+
+
+def walk(src, a, b, ops, order, full, expect_key=None):
+    """
+    The whole path on ONE object from a fresh lookup.  Before and after every operation every figure and str() are read
+    (orders order, order + 1, ...; every second time a few figures twice); full: check_state as well.  Message or None.
+    """
+    bait = Fragment("scf", a, b, 1, ("Painted", "X"))
+    res = src.asm.find_overlaps(bait)
+    if res is None:
+        return None
+    done = []
+    for i in range(len(ops) + 1):
+        where = f"after {done} on one object" if done else "after find_overlaps"
+        if i % 2:
+            try:
+                read_figures(res, order + 5 + i)
+            except Exception as e:
+                return f"{where}: reading the figures raised {type(e).__name__}: {e}"
+        want = want_figures(res, bait)
+        msg = check_figures(res, bait, order + i, want) or check_str(res, bait, want) or check_figures(res, bait, order + i + 3, want)
+        if not msg and full:
+            msg = safe_check(res, src, bait) or check_figures(res, bait, order + i + 1, want)
+        if msg:
+            return f"{where}: {msg}"
+        if i == len(ops):
+            break
+        if not res.rows or not apply_op(res, tuple(ops[i])):
+            return None if full else f"{where}: {ops[i]} is refused by the object whose figures had been read, but was accepted by an object fresh from the lookup and the same operations"
+        done = done + [list(ops[i])]
+    if expect_key is not None and state_key(res) != expect_key:
+        return (
+            f"{done} applied to one object whose figures were read in between leaves span {res.start}..{res.end} rows {row_keys(res.rows)}, "
+            f"the same operations without the readings leave span {expect_key[0]}..{expect_key[1]} rows {[list(k) for k in expect_key[2]]}: readings change what operations do"
+        )
+    return None
+
+
+def explore(src, a, b, depth, col, counters, walk_every=1, noop_every=1):
     bait = Fragment("scf", a, b, 1, ("Painted", "X"))
     try:
         res = src.asm.find_overlaps(bait)
@@ -356,55 +539,75 @@ def explore(src, a, b, depth, col, counters):
     if res is None:
         return False
     base = {"rows": [list(k) for k in src.kinds], "a": a, "b": b}
-    msg = safe_check(res, src)
+    msg = safe_check(res, src, bait)
     counters["states"] += 1
     if msg:
         col.fail(f"after find_overlaps({a}-{b}) on rows {src.kinds}: {msg}", dict(base, ops=[]))
         return True
-    frontier = [(res, [])]
-    seen = {state_key(res)}
+    key = state_key(res)
+    frontier = [(res, [], key)]
+    seen = {key: want_figures(res, bait)}
     for _ in range(depth):
         nxt = []
-        for st, path in frontier:
+        for st, path, st_key in frontier:
             if not st.rows:
                 continue
             for op in OPS:
-                c = clone(st)
+                # the copy remembers what st remembers (st has had every figure read in check_state)
+                c = carry(st)
                 counters["ops"] += 1
                 if not apply_op(c, op):
                     continue
                 key = state_key(c)
-                if key in seen:
-                    continue
-                seen.add(key)
-                p2 = path + [list(op)]
-                msg = safe_check(c, src)
-                counters["states"] += 1
+                counters["edges"] += 1
+                order = counters["edges"]
+                known = seen.get(key)
+                if key == st_key and order % noop_every:
+                    continue  # quick tier: of the edges that change neither rows nor span only every noop_every-th is read
+                counters["edges_read"] += 1
+                msg = check_figures(c, bait, order, known)
                 if msg:
-                    col.fail(f"find_overlaps({a}-{b}) on rows {src.kinds} then {p2}: {msg}", dict(base, ops=p2))
+                    p2 = path + [list(op)]
+                    col.fail(f"find_overlaps({a}-{b}) on rows {src.kinds} then {p2}, figures read before and after every operation on the same object: {msg}", dict(base, ops=p2, order=order))
                     if col.full:
                         return True
                     continue
-                nxt.append((c, p2))
+                if known is not None:
+                    continue
+                seen[key] = want_figures(c, bait)
+                p2 = path + [list(op)]
+                msg = safe_check(c, src, bait)
+                counters["states"] += 1
+                if not msg and counters["states"] % walk_every == 0:
+                    counters["walks"] += 1
+                    msg = walk(src, a, b, p2, order, False, key)
+                if msg:
+                    col.fail(f"find_overlaps({a}-{b}) on rows {src.kinds} then {p2}: {msg}", dict(base, ops=p2, order=order))
+                    if col.full:
+                        return True
+                    continue
+                nxt.append((c, p2, key))
         frontier = nxt
     return True
 
 
 def replay(inp):
+    """the recorded path on one object, everything read (figures, str(), check_state) before and after every operation"""
     src = Source([tuple(k) for k in inp["rows"]])
-    res = src.asm.find_overlaps(Fragment("scf", inp["a"], inp["b"], 1, ("Painted", "X")))
+    order = inp.get("order", 0)
+    msg = walk(src, inp["a"], inp["b"], inp["ops"], order, True)
+    if msg:
+        return msg
+    # the state the exploration judged: the operations alone on an object fresh from the lookup (no readings in between)
+    bait = Fragment("scf", inp["a"], inp["b"], 1, ("Painted", "X"))
+    res = src.asm.find_overlaps(bait)
     if res is None:
         return None
-    msg = safe_check(res, src)
-    if msg:
-        return f"after find_overlaps: {msg}"
-    for i, op in enumerate(inp["ops"]):
+    for op in inp["ops"]:
         if not res.rows or not apply_op(res, tuple(op)):
             return None
-        msg = safe_check(res, src)
-        if msg:
-            return f"after {inp['ops'][: i + 1]}: {msg}"
-    return None
+    msg = safe_check(res, src, bait) or walk(src, inp["a"], inp["b"], inp["ops"], order, False, state_key(res))
+    return f"after {inp['ops']}: {msg}" if msg else None
 
 
 def run(tier, seed, **opts):
@@ -419,10 +622,17 @@ def run(tier, seed, **opts):
         "distinct states; every state is judged on the OverlapResult attributes and on the figures of the "
         "OverhangPremise objects for its first and last row (each subclass built directly and the ones "
         "OverhangResolver.add_overhang_premise makes: bait overlap, what-if overhang, error delta, improves / "
-        f"makes_worse for error lengths {ERR_LENGTHS}, effect of apply); non-trivial = distinct (scaffold, bait) "
+        f"makes_worse for error lengths {ERR_LENGTHS}, effect of apply), always against the bait that was looked up; every "
+        "child state is made by editing a copy of its parent that keeps all instance attributes, and on every edge (also to states "
+        "already seen" + ("; of the edges that change neither rows nor span every 6th" if quick else "") + ") all figures are read from the edited object in a "
+        "changing order and compared with interval arithmetic on "
+        f"its current rows; for {'every 25th state' if quick else 'every 4th state'} the whole path is walked on ONE object from a fresh lookup with all "
+        "figures and str() read before and after each operation (changing orders, some twice) and the final state compared with the "
+        "one reached without readings; non-trivial = distinct (scaffold, bait) "
         "with a non-empty lookup result; evaluations = operation applications + states checked"
     )
-    counters = {"ops": 0, "states": 0}
+    counters = {"ops": 0, "states": 0, "edges": 0, "edges_read": 0, "walks": 0}
+    walk_every, noop_every = (25, 6) if quick else (4, 1)
     n_sc = 0
 
     def do_scaffold(kinds):
@@ -432,7 +642,7 @@ def run(tier, seed, **opts):
         total = len(src.bases)
         for a in range(1, total + 3):
             for b in range(a, total + 3):
-                if explore(src, a, b, depth, col, counters):
+                if explore(src, a, b, depth, col, counters, walk_every, noop_every):
                     col.distinct.add((kinds, a, b))
                     if len(col.samples) < col.max_samples and (n_sc % 97 == 5 and a == 2 and b == total):
                         col.samples.append({"rows": [list(k) for k in kinds], "a": a, "b": b, "depth": depth})
@@ -457,4 +667,6 @@ def run(tier, seed, **opts):
         f"all baits up to total+2; all operation sequences of length <= {depth}",
         exhaustive=True,
         states_checked=counters["states"],
+        edges_checked=counters["edges_read"],
+        same_object_walks=counters["walks"],
     )
